@@ -191,7 +191,6 @@ def i_SLTIU(ins, fmap):
 @__npc
 def i_SLL(ins, fmap):
     dst, src1, src2 = ins.operands
-    src1.sf = src2.sf = False
     src2 = src2 & 0x1F
     if dst is not zero:
         fmap[dst] = fmap(src1 << src2)
@@ -200,7 +199,6 @@ def i_SLL(ins, fmap):
 @__npc
 def i_SRL(ins, fmap):
     dst, src1, src2 = ins.operands
-    src1.sf = src2.sf = False
     src2 = src2 & 0x1F
     if dst is not zero:
         fmap[dst] = fmap(src1 >> src2)
@@ -209,8 +207,6 @@ def i_SRL(ins, fmap):
 @__npc
 def i_SRA(ins, fmap):
     dst, src1, src2 = ins.operands
-    src1.sf = True
-    src2.sf = False
     src2 = src2 & 0x1F
     if dst is not zero:
         fmap[dst] = fmap(oper(OP_ASR, src1, src2))
@@ -219,7 +215,6 @@ def i_SRA(ins, fmap):
 @__npc
 def i_SLLI(ins, fmap):
     dst, src1, src2 = ins.operands
-    src1.sf = src2.sf = False
     if dst is not zero:
         fmap[dst] = fmap(src1 << src2)
 
@@ -227,7 +222,6 @@ def i_SLLI(ins, fmap):
 @__npc
 def i_SRLI(ins, fmap):
     dst, src1, src2 = ins.operands
-    src1.sf = src2.sf = False
     if dst is not zero:
         fmap[dst] = fmap(src1 >> src2)
 
